@@ -12,9 +12,11 @@ from harness.props import c06, c10
 OBLIGATIONS = [
     "PgmVerif.C11_apply_acyclic", "PgmVerif.C11_hc_acyclic", "PgmVerif.C11_best_is_max", "PgmVerif.C11_loop_stops_below_eps",
     "PgmVerif.C11_hc_lists", "PgmVerif.C11_delta_exact", "PgmVerif.C11_hc_monotone", "PgmVerif.C11_hc_indegree",
-    "PgmVerif.C11_defaults_tie",
+    "PgmVerif.C11_defaults_tie", "PgmVerif.C11_tree_scale_invariant",
 ]
-PARTIAL = ["maximum-weight spanning tree optimality (networkx) is compared per case with the brute-force maximum of the Lean spec (<= 6 nodes)",
+PARTIAL = ["maximum-weight spanning tree optimality (networkx) is compared per case with the brute-force maximum of the Lean spec (<= 6 nodes); "
+           "weight functions on other scales (x 2**-40 .. 2**20) are handed to the implementation only, the specification keeps the unscaled "
+           "weights - C11_tree_scale_invariant is why the two rank every edge set alike",
            "black-box runs with the real scores check the contract only (acyclic, lists, in-degree, score not lower than the start)",
            "the in-degree bound is proved for the model's search loop (C11_hc_indegree: a start graph within the limit stays within it at "
            "every step); the implementation's loop is tied to it through the white-box trajectory and the contract checks"]
